@@ -190,6 +190,21 @@ def classify(u, fn):
            is_param(kids(core)[0], ps[0]) and core.get('isArrow'):
             base.update(kind='payload')
             return base
+    # ---- getter through one local: T v = (casts) Avtp_GetField(...); return (casts) v; ----
+    if len(st) == 2 and st[0]['kind'] == 'DeclStmt' and st[1]['kind'] == 'ReturnStmt' and kids(st[1]) and len(kids(st[0])) == 1:
+        vd = kids(st[0])[0]
+        inits = [c for c in kids(vd) if c.get('kind') not in ('FullComment',)]
+        if vd.get('kind') == 'VarDecl' and len(inits) == 1 and vd.get('storageClass') is None:
+            chain1, core1 = cast_chain(inits[0])
+            chain2, core2 = cast_chain(kids(st[1])[0])
+            if core1.get('kind') == 'CallExpr' and callee_name(core1) == 'Avtp_GetField' and \
+               core2.get('kind') == 'DeclRefExpr' and core2.get('referencedDecl', {}).get('id') == vd.get('id'):
+                g = parse_generic_call(u, core1, ps, False)
+                rw = u.tenv.width(rt)
+                c1, c2 = u.int_casts(chain1), u.int_casts(chain2)
+                if g and rw and c1 is not None and c2 is not None and u.tenv.width(vd['type']['qualType']):
+                    base.update(kind='getter', call=g, ret_width=[rw[0], bool(rw[1])], ret_casts=c1 + c2)
+                    return base
     # ---- setter ----
     if len(st) == 1:
         core = st[0]
@@ -208,6 +223,20 @@ def classify(u, fn):
             l, r = kids(cond)
             if (is_param(l, ps[0]) and is_null(r)) or (is_param(r, ps[0]) and is_null(l)):
                 ops = parse_init_ops(u, kids(parts[1]) if parts[1]['kind'] == 'CompoundStmt' else [parts[1]], ps)
+                if ops is not None:
+                    base.update(kind='init', guarded=True, ops=ops)
+                    return base
+    # ---- initialiser with an early return: if (pdu == NULL) return; memset(...); sets... ----
+    if len(st) >= 2 and st[0]['kind'] == 'IfStmt' and len(ps) >= 1 and rt == 'void':
+        parts = kids(st[0])
+        cond = strip_expr(parts[0])
+        if len(parts) == 2 and cond.get('kind') == 'BinaryOperator' and cond.get('opcode') == '==':
+            l, r = kids(cond)
+            then = parts[1]
+            if then.get('kind') == 'CompoundStmt' and len(kids(then)) == 1:
+                then = kids(then)[0]
+            if ((is_param(l, ps[0]) and is_null(r)) or (is_param(r, ps[0]) and is_null(l))) and then.get('kind') == 'ReturnStmt' and not kids(then):
+                ops = parse_init_ops(u, st[1:], ps)
                 if ops is not None:
                     base.update(kind='init', guarded=True, ops=ops)
                     return base
@@ -333,6 +362,21 @@ def classify_legacy(u, fn, ps, st, rt):
                 act = parse_legacy_actions(u, els[:-1], ps)
                 if act is not None:
                     return {'kind': 'legacy', 'guards': g, 'actions': act}
+    # shape C: if (guards) return -EINVAL; [if (guards) return -EINVAL; ...] actions...; return 0;
+    # (every guard returns the same code, so consecutive guard statements are the || chain of shape A)
+    k = 0
+    gs = []
+    while k < len(st) and st[k]['kind'] == 'IfStmt' and len(kids(st[k])) == 2 and einval(kids(st[k])[1]):
+        g = guards(kids(st[k])[0])
+        if g is None:
+            gs = None
+            break
+        gs += g
+        k += 1
+    if gs and k >= 1 and len(st) > k and ret_zero(st[-1]) and st[k]['kind'] != 'DeclStmt':
+        act = parse_legacy_actions(u, st[k:-1], ps)
+        if act is not None:
+            return {'kind': 'legacy', 'guards': gs, 'actions': act}
     # shape B (avtp_aaf_pdu_init): if (!pdu) return -EINVAL; memset; res = set(...); if (res<0) return res; ...; return 0;
     if len(st) >= 3 and st[0]['kind'] == 'DeclStmt' and st[1]['kind'] == 'IfStmt':
         parts = kids(st[1])
